@@ -322,4 +322,227 @@ theorem cbcaStep3_generated_eq (P : Plane) (hH : 1 ≤ P.H) :
   · intro x i hx h0 h1
     exact done3_read key.2 x hx i h0 h1
 
+/-! ## Steps 2 and 4: stores at an indirect index -/
+
+/-- `cross[y, x, 0..3]` (left, right, top, bottom) as the integer array the kernels are called with -/
+def embA (arms : Nat → Nat → Arms) : Int → Int → Int → Int := fun i j k =>
+  let a := arms i.toNat j.toNat
+  if k = 0 then (a.left : Int) else if k = 1 then (a.right : Int) else if k = 2 then (a.top : Int) else (a.bot : Int)
+
+theorem get3_embA (arms : Nat → Nat → Arms) (n0 n1 : Int) (i j : Nat) :
+    get3 (embA arms) n0 n1 4 (i : Int) (j : Int) 0 = ((arms i j).left : Int) ∧
+    get3 (embA arms) n0 n1 4 (i : Int) (j : Int) 1 = ((arms i j).right : Int) ∧
+    get3 (embA arms) n0 n1 4 (i : Int) (j : Int) 2 = ((arms i j).top : Int) ∧
+    get3 (embA arms) n0 n1 4 (i : Int) (j : Int) 3 = ((arms i j).bot : Int) := by
+  have w0 : wrap 4 0 = 0 := by simp [wrap]
+  have w1 : wrap 4 1 = 1 := by simp [wrap]
+  have w2 : wrap 4 2 = 2 := by simp [wrap]
+  have w3 : wrap 4 3 = 3 := by simp [wrap]
+  simp [get3, wrap_nat, embA, w0, w1, w2, w3]
+
+theorem inb3_arms {n0 n1 : Int} {i j : Nat} (hi : (i : Int) < n0) (hj : (j : Int) < n1) :
+    inb3 n0 n1 4 (i : Int) (j : Int) 0 = true ∧ inb3 n0 n1 4 (i : Int) (j : Int) 1 = true ∧
+    inb3 n0 n1 4 (i : Int) (j : Int) 2 = true ∧ inb3 n0 n1 4 (i : Int) (j : Int) 3 = true := by
+  have k0 : inb 4 0 = true := by simp [inb, wrap]
+  have k1 : inb 4 1 = true := by simp [inb, wrap]
+  have k2 : inb 4 2 = true := by simp [inb, wrap]
+  have k3 : inb 4 3 = true := by simp [inb, wrap]
+  simp [inb3, inb_nat hi, inb_nat hj, k0, k1, k2, k3]
+
+theorem imin_nat (a b : Nat) : imin (a : Int) (b : Int) = ((min a b : Nat) : Int) := by
+  simp only [imin]; split <;> omega
+
+theorem get1_nat {α : Type} (a : Int → α) (n : Int) (t : Nat) : get1 a n (t : Int) = a t := by
+  simp [get1, wrap_nat]
+
+theorem inb_range {n i : Int} (h0 : -n ≤ i) (h1 : i < n) : inb n i = true := by
+  simp only [inb, wrap]; split <;> simp <;> omega
+
+theorem get2_set2_same {α : Type} (a : Int → Int → α) (n0 n1 i j : Int) (v : α) :
+    get2 (set2 a n0 n1 i j v) n0 n1 i j = v := by
+  simp [get2, set2]
+
+theorem set2_set2 {α : Type} (a : Int → Int → α) (n0 n1 i j : Int) (v w : α) :
+    set2 (set2 a n0 n1 i j v) n0 n1 i j w = set2 a n0 n1 i j w := by
+  funext i' j'; simp only [set2]; split <;> rfl
+
+/-- how the model's plane is handed to `cbca_step_2` / `cbca_step_4`: `range_col` lists — once each — exactly the
+    columns of the left image that have a facing right column at the plane's disparity, `range_col_right` that column
+    (`cost_volume_aggregation`: `range_col[valid_index]`, `range_col_right[valid_index].astype(int)`) -/
+structure Wired (P : Plane) (n : Nat) (rc rcr : Int → Int) : Prop where
+  facing : ∀ t : Nat, t < n → ∃ x xr : Nat, rc t = (x : Int) ∧ x < P.W ∧ rightCol P.d P.Wr x = some xr ∧
+    rcr t = (xr : Int) ∧ xr < P.Wr
+  once : ∀ t t' : Nat, t < n → t' < n → rc t = rc t' → t = t'
+  all : ∀ x : Nat, x < P.W → rightCol P.d P.Wr x ≠ none → ∃ t : Nat, t < n ∧ rc t = (x : Int)
+
+/-- the left arms stay inside the image (what `Cbca.armsInImage` decides; proved of `cross_support` in C11Kernels) -/
+def ArmsIn (H W : Nat) (arms : Nat → Nat → Arms) : Prop :=
+  ∀ y x : Nat, y < H → x < W →
+    (arms y x).left ≤ x ∧ x + (arms y x).right < W ∧ (arms y x).top ≤ y ∧ y + (arms y x).bot < H
+
+theorem armsIn_of (H W : Nat) (arms : Nat → Nat → Arms) (h : armsInImage H W arms = true) : ArmsIn H W arms := by
+  unfold armsInImage at h
+  simp only [List.all_eq_true, List.mem_range, Bool.and_eq_true, decide_eq_true_eq] at h
+  intro y x hy hx
+  have := h y hy x hx
+  omega
+
+/-- cell `(i, j)` has been visited when the loops are at row `c`, iteration `r` of the inner loop -/
+def Vis (rc : Int → Int) (c r i j : Nat) : Prop := i < c ∨ (i = c ∧ ∃ t : Nat, t < r ∧ rc t = (j : Int))
+
+/-- visited cells hold `f`, the others still hold `z` -/
+def Done (W : Nat) (rc : Int → Int) (f z : Nat → Nat → Rat) (c r : Nat) (a : Int → Int → Val) : Prop :=
+  ∀ i j : Nat, j < W → (Vis rc c r i j → a i j = Val.num (f i j)) ∧ (¬ Vis rc c r i j → a i j = Val.num (z i j))
+
+theorem done_init (W : Nat) (rc : Int → Int) (f z : Nat → Nat → Rat) (a : Int → Int → Val)
+    (h : ∀ i j : Nat, a i j = Val.num (z i j)) : Done W rc f z 0 0 a := by
+  intro i j _
+  refine ⟨?_, fun _ => h i j⟩
+  rintro (h | ⟨_, t, ht, _⟩) <;> omega
+
+/-- the cell about to be stored has not been visited (the columns of `range_col` are distinct): it still holds `z` -/
+theorem done_fresh {W n : Nat} {rc : Int → Int} {f z : Nat → Nat → Rat} {c r : Nat} {a : Int → Int → Val}
+    (hd : Done W rc f z c r a) (once : ∀ t t' : Nat, t < n → t' < n → rc t = rc t' → t = t') (hr : r < n)
+    (x : Nat) (hx : rc r = (x : Int)) (hxW : x < W) : a c x = Val.num (z c x) := by
+  refine (hd c x hxW).2 ?_
+  rintro (h | ⟨_, t, ht, h⟩)
+  · omega
+  · have := once t r (by omega) hr (by rw [h, hx]); omega
+
+theorem done_set {W : Nat} {rc : Int → Int} {f z : Nat → Nat → Rat} {c r : Nat} {a : Int → Int → Val} (n0 n1 : Int)
+    (hd : Done W rc f z c r a) (x : Nat) (hx : rc r = (x : Int)) (v : Val) (hv : v = Val.num (f c x)) :
+    Done W rc f z c (r + 1) (set2 a n0 n1 (c : Int) (x : Int) v) := by
+  intro i j hj
+  rw [set2_nat]
+  by_cases h : i = c ∧ j = x
+  · obtain ⟨rfl, rfl⟩ := h
+    simp only [and_self, if_true]
+    exact ⟨fun _ => hv, fun hn => absurd (Or.inr ⟨rfl, r, by omega, hx⟩) hn⟩
+  · have e : Vis rc c (r + 1) i j ↔ Vis rc c r i j := by
+      constructor
+      · rintro (h1 | ⟨h1, t, ht, h2⟩)
+        · exact Or.inl h1
+        · by_cases htr : t = r
+          · subst htr; exact absurd ⟨h1, by rw [hx] at h2; exact_mod_cast h2.symm⟩ h
+          · exact Or.inr ⟨h1, t, by omega, h2⟩
+      · rintro (h1 | ⟨h1, t, ht, h2⟩)
+        · exact Or.inl h1
+        · exact Or.inr ⟨h1, t, by omega, h2⟩
+    simp only [h, if_false, e]
+    exact hd i j hj
+
+/-- end of a row: the columns that `range_col` does not list keep `z`, which is what `f` says there -/
+theorem done_next {W n : Nat} {rc : Int → Int} {f z : Nat → Nat → Rat} {c : Nat} {a : Int → Int → Val}
+    (hd : Done W rc f z c n a)
+    (hrest : ∀ j : Nat, j < W → (¬ ∃ t : Nat, t < n ∧ rc t = (j : Int)) → f c j = z c j) :
+    Done W rc f z (c + 1) 0 a := by
+  intro i j hj
+  have := hd i j hj
+  constructor
+  · rintro (h | ⟨_, t, ht, _⟩)
+    · by_cases hv : Vis rc c n i j
+      · exact this.1 hv
+      · have hic : i = c := by
+          by_contra hne; exact hv (Or.inl (by omega))
+        subst hic
+        rw [this.2 hv, hrest j hj (fun ⟨t, ht, h⟩ => hv (Or.inr ⟨rfl, t, ht, h⟩))]
+    · omega
+  · intro hv
+    refine this.2 (fun h => hv ?_)
+    rcases h with h | ⟨h, _⟩
+    · exact Or.inl (by omega)
+    · exact Or.inl (by omega)
+
+theorem done_final {W : Nat} {rc : Int → Int} {f z : Nat → Nat → Rat} {H : Nat} {a : Int → Int → Val}
+    (hd : Done W rc f z H 0 a) (y x : Nat) (hy : y < H) (hx : x < W) : a y x = Val.num (f y x) :=
+  (hd y x hx).1 (Or.inl hy)
+
+theorem comb_some (P : Plane) (y x xr : Nat) (h : rightCol P.d P.Wr x = some xr) :
+    comb P y x = some ⟨min (P.armsL y x).left (P.armsR y xr).left, min (P.armsL y x).right (P.armsR y xr).right,
+      min (P.armsL y x).top (P.armsR y xr).top, min (P.armsL y x).bot (P.armsR y xr).bot⟩ := by
+  simp [comb, h]
+
+theorem comb_none (P : Plane) (y x : Nat) (h : rightCol P.d P.Wr x = none) : comb P y x = none := by
+  simp [comb, h]
+
+/-- **`cbca_step_2` as the source defines it today is the hand model's `step2` / `sum2`.**  Called with any array that
+    reads like the output of step 1 (Python indices `[-(W+1), W]`, the sentinel included), the arm arrays of the plane
+    (left arms inside the image) and the column lists of `cost_volume_aggregation` (`Wired`), the generated function returns
+    (`Res.ok`: no read or store outside an array) two `(H, W)` arrays: `step1[y, x + right] - step1[y, x - left - 1]`
+    and `right + left` with `left/right = min` of the two cross supports, `0` in the columns without a facing column. -/
+theorem cbcaStep2_generated_eq (P : Plane) (n : Nat) (rc rcr : Int → Int) (s1 : Int → Int → Val)
+    (hs1 : ∀ (y : Nat) (j : Int), y < P.H → -((P.W : Int) + 1) ≤ j → j < (P.W : Int) + 1 →
+      get2 s1 (P.H : Int) ((P.W : Int) + 1) y j = Val.num (s1At P.W (P.cv y) j))
+    (hw : Wired P n rc rcr) (hin : ArmsIn P.H P.W P.armsL) :
+    ∃ r, cbcaStep2 s1 P.H ((P.W : Int) + 1) (embA P.armsL) P.H P.W 4 (embA P.armsR) P.H P.Wr 4 rc n rcr n = .ok r ∧
+      r.1.n0 = P.H ∧ r.1.n1 = P.W ∧ r.2.n0 = P.H ∧ r.2.n1 = P.W ∧
+      ∀ y x : Nat, y < P.H → x < P.W →
+        r.1.get y x = Val.num (step2 P y x) ∧ r.2.get y x = Val.num ((sum2 P y x : Nat) : Rat) := by
+  simp only [cbcaStep2]
+  generalize hL : forRange (0 : Int) (P.H : Int) 1 _ _ = L
+  have key : L.1 = true ∧ Done P.W rc (step2 P) (fun _ _ => 0) P.H 0 L.2.1
+      ∧ Done P.W rc (fun y x => ((sum2 P y x : Nat) : Rat)) (fun _ _ => 0) P.H 0 L.2.2 := by
+    rw [← hL]
+    refine forRange_inv (fun c (st : Bool × (Int → Int → Val) × (Int → Int → Val)) => st.1 = true
+        ∧ Done P.W rc (step2 P) (fun _ _ => 0) c 0 st.2.1
+        ∧ Done P.W rc (fun y x => ((sum2 P y x : Nat) : Rat)) (fun _ _ => 0) c 0 st.2.2) 0 (P.H : Int) 1 P.H _ _
+      (rangeLen_one _ _ _ (by omega))
+      ⟨rfl, done_init _ _ _ _ _ (fun _ _ => rfl), done_init _ _ _ _ _ (fun _ _ => by simp [zeros2])⟩ ?_
+    rintro c ⟨ok, a, b⟩ hc ⟨hok, hda, hdb⟩
+    simp only [] at hok hda hdb
+    subst hok
+    simp only [Int.zero_add, Int.one_mul]
+    generalize hM : forRange (0 : Int) (n : Int) 1 _ _ = M
+    have keyM : M.1 = true ∧ Done P.W rc (step2 P) (fun _ _ => 0) c n M.2.1
+        ∧ Done P.W rc (fun y x => ((sum2 P y x : Nat) : Rat)) (fun _ _ => 0) c n M.2.2 := by
+      rw [← hM]
+      refine forRange_inv (fun r (st : Bool × (Int → Int → Val) × (Int → Int → Val)) => st.1 = true
+          ∧ Done P.W rc (step2 P) (fun _ _ => 0) c r st.2.1
+          ∧ Done P.W rc (fun y x => ((sum2 P y x : Nat) : Rat)) (fun _ _ => 0) c r st.2.2) 0 (n : Int) 1 n _ _
+        (rangeLen_one _ _ _ (by omega)) ⟨rfl, hda, hdb⟩ ?_
+      rintro t ⟨ok, a, b⟩ ht ⟨hok, hda, hdb⟩
+      simp only [] at hok hda hdb
+      subst hok
+      obtain ⟨x, xr, hrc, hx, hcol, hrcr, hxr⟩ := hw.facing t ht
+      have hcH : (c : Int) < (P.H : Int) := by exact_mod_cast hc
+      have hxW : (x : Int) < (P.W : Int) := by exact_mod_cast hx
+      have hxrW : (xr : Int) < (P.Wr : Int) := by exact_mod_cast hxr
+      have htn : (t : Int) < (n : Int) := by exact_mod_cast ht
+      have hA := hin c x hc hx
+      have gl := get3_embA P.armsL (P.H : Int) (P.W : Int) c x
+      have gr := get3_embA P.armsR (P.H : Int) (P.Wr : Int) c xr
+      have il := inb3_arms (n0 := (P.H : Int)) (n1 := (P.W : Int)) (i := c) (j := x) hcH hxW
+      have ir := inb3_arms (n0 := (P.H : Int)) (n1 := (P.Wr : Int)) (i := c) (j := xr) hcH hxrW
+      have hR : min (P.armsL c x).right (P.armsR c xr).right ≤ (P.armsL c x).right := Nat.min_le_left _ _
+      have hLf : min (P.armsL c x).left (P.armsR c xr).left ≤ (P.armsL c x).left := Nat.min_le_left _ _
+      have r1 := hs1 c ((x : Int) + ((min (P.armsL c x).right (P.armsR c xr).right : Nat) : Int)) hc (by omega) (by omega)
+      have r2 := hs1 c ((x : Int) - ((min (P.armsL c x).left (P.armsR c xr).left : Nat) : Int) - 1) hc (by omega) (by omega)
+      have i1 : inb2 (P.H : Int) ((P.W : Int) + 1) (c : Int)
+          ((x : Int) + ((min (P.armsL c x).right (P.armsR c xr).right : Nat) : Int)) = true := by
+        simp only [inb2, inb_nat hcH, Bool.true_and]; exact inb_range (by omega) (by omega)
+      have i2 : inb2 (P.H : Int) ((P.W : Int) + 1) (c : Int)
+          ((x : Int) - ((min (P.armsL c x).left (P.armsR c xr).left : Nat) : Int) - 1) = true := by
+        simp only [inb2, inb_nat hcH, Bool.true_and]; exact inb_range (by omega) (by omega)
+      have hfresh := done_fresh hdb hw.once ht x hrc hx
+      have hW1 : (P.W : Int) + 1 - 1 = P.W := by omega
+      simp only [hW1, Int.zero_add, Int.one_mul, get1_nat, hrc, hrcr, gl.1, gl.2.1, gr.1, gr.2.1, il.1, il.2.1, ir.1, ir.2.1,
+        imin_nat, inb1, inb_nat htn, r1, r2, i1, i2, inb2_nat hcH hxW, get2_nat, hfresh, Bool.and_true, Bool.true_and]
+      refine ⟨by triv, by triv, done_set _ _ hda x hrc _ ?_, done_set _ _ hdb x hrc _ ?_⟩
+      · simp [step2, comb_some P c x xr hcol, vsub, Val.map2]
+      · simp [sum2, comb_some P c x xr hcol, vadd, Val.map2]
+    refine ⟨by triv, by simp [keyM.1], done_next keyM.2.1 ?_, done_next keyM.2.2 ?_⟩
+    · intro j hj hno
+      have : rightCol P.d P.Wr j = none := by
+        by_contra hne; exact hno (hw.all j hj hne)
+      simp [step2, comb_none P c j this]
+    · intro j hj hno
+      have : rightCol P.d P.Wr j = none := by
+        by_contra hne; exact hno (hw.all j hj hne)
+      simp [sum2, comb_none P c j this]
+  refine ⟨(⟨L.2.1, P.H, P.W⟩, ⟨L.2.2, P.H, P.W⟩), ?_, rfl, rfl, rfl, rfl, ?_⟩
+  · have h0 : ((P.H : Int) ≥ 0) ∧ ((P.W : Int) + 1 - 1 ≥ 0) ∧ (P.W : Int) + 1 - 1 = P.W := ⟨by omega, by omega, by omega⟩
+    simp [key.1, h0]
+  · intro y x hy hx
+    exact ⟨done_final key.2.1 y x hy hx, done_final key.2.2 y x hy hx⟩
+
 end Pandora.C11KernelsSteps
